@@ -310,3 +310,127 @@ pub fn fill(buf: &mut [u8]) -> bool {
         true
     })
 }
+
+// ---------------------------------------------------------------- visibility (H4)
+
+/// Re-exports of items that are `pub` inside private modules.
+pub mod export {
+    pub use crate::actor::config::Config;
+    pub use crate::actor::socket::KrpcSocket;
+    pub use crate::actor::{Actor, Info, ResponseSender};
+    pub use crate::common::messages::*;
+    pub use crate::common::{
+        hash_immutable, validate_immutable, ClosestNodes, Id, MutableItem, Node, RoutingTable,
+        SignedAnnounce,
+    };
+    pub use crate::core::iterative_query::GetRequestSpecific;
+    pub use crate::core::put_query::PutQuery;
+    pub use crate::core::server::peers::PeersStore;
+    pub use crate::core::server::signed_peers::SignedPeersStore;
+    pub use crate::core::server::tokens::Tokens;
+    pub use crate::core::server::{RequestFilter, Server, ServerSettings};
+    pub use crate::core::{ConcurrencyError, Core, PutError, PutQueryError, Response};
+    pub use crate::dht::Dht;
+}
+
+use crate::actor::ActorMessage;
+use crate::common::messages::{Message, MessageType};
+use crate::common::{Id, Node};
+use crate::core::{Core, Response};
+
+/// Public wrapper around the crate-private `Message`.
+#[derive(Debug, Clone, PartialEq)]
+pub struct Msg(pub(crate) Message);
+
+impl Msg {
+    pub fn new(
+        transaction_id: u32,
+        version: Option<[u8; 4]>,
+        requester_ip: Option<SocketAddrV4>,
+        message_type: MessageType,
+        read_only: bool,
+    ) -> Self {
+        Msg(Message {
+            transaction_id,
+            version,
+            requester_ip,
+            message_type,
+            read_only,
+        })
+    }
+    /// Decode with the production decoder. The error is the variant name of `DecodeMessageError`.
+    pub fn from_bytes(bytes: &[u8]) -> Result<Msg, String> {
+        Message::from_bytes(bytes).map(Msg).map_err(|e| {
+            let d = format!("{e:?}");
+            d.split(['(', ' ', '{']).next().unwrap_or("").to_string()
+        })
+    }
+    pub fn to_bytes(&self) -> Result<Vec<u8>, String> {
+        self.0.to_bytes().map_err(|e| format!("{e:?}"))
+    }
+    pub fn transaction_id(&self) -> u32 {
+        self.0.transaction_id
+    }
+    pub fn version(&self) -> Option<[u8; 4]> {
+        self.0.version
+    }
+    pub fn requester_ip(&self) -> Option<SocketAddrV4> {
+        self.0.requester_ip
+    }
+    pub fn read_only(&self) -> bool {
+        self.0.read_only
+    }
+    pub fn message_type(&self) -> &MessageType {
+        &self.0.message_type
+    }
+}
+
+/// `Core::handle_response` is crate-private because it takes a `Message`.
+pub fn core_handle_response(
+    core: &mut Core,
+    from: SocketAddrV4,
+    message: Msg,
+) -> Option<(Id, Response)> {
+    core.handle_response(from, message.0)
+}
+
+/// The receiving half of a `Dht` handle's channel, so a harness can play the actor.
+pub struct ActorRx(flume::Receiver<ActorMessage>);
+
+/// What an API facade sent to the actor.
+pub enum ApiCall {
+    Info(flume::Sender<crate::actor::Info>),
+    Put(
+        crate::common::messages::PutRequestSpecific,
+        flume::Sender<Result<Id, crate::core::PutError>>,
+        Option<Box<[Node]>>,
+    ),
+    Get(
+        crate::core::iterative_query::GetRequestSpecific,
+        crate::actor::ResponseSender,
+    ),
+    Check(flume::Sender<Result<(), std::io::Error>>),
+    ToBootstrap(flume::Sender<Vec<String>>),
+    Other,
+}
+
+/// A `Dht` handle whose actor side is owned by the caller.
+pub fn dht_with_channel() -> (crate::dht::Dht, ActorRx) {
+    let (tx, rx) = flume::unbounded();
+    (crate::dht::Dht(tx), ActorRx(rx))
+}
+
+impl ActorRx {
+    pub fn try_recv(&self) -> Option<ApiCall> {
+        match self.0.try_recv() {
+            Ok(ActorMessage::Info(s)) => Some(ApiCall::Info(s)),
+            Ok(ActorMessage::Put(r, s, e)) => Some(ApiCall::Put(r, s, e)),
+            Ok(ActorMessage::Get(r, s)) => Some(ApiCall::Get(r, s)),
+            Ok(ActorMessage::Check(s)) => Some(ApiCall::Check(s)),
+            Ok(ActorMessage::ToBootstrap(s)) => Some(ApiCall::ToBootstrap(s)),
+            #[allow(unreachable_patterns)]
+            Ok(_) => Some(ApiCall::Other),
+            Err(_) => None,
+        }
+    }
+}
